@@ -566,3 +566,64 @@ class OnOperationInvokedReport(_ConsumerBase):
     def post(self, ex, st0, st, outcome, b):
         if outcome[0] == 'exc':
             ex.oblige(st, 'never_raises', z3.BoolVal(False), info={'exc': repr(outcome[1])})
+
+
+@register
+class EnqueueOperation(FnCheck):
+    id = 'C09.enqueue_operation'
+    prop = 'C09'
+    target = f'{SCO}:_OperationsWorker.enqueue_operation'
+    doc = ('enqueue_operation: a normal return means the request was put on the worker queue exactly once, as the tuple '
+           '(transaction id, operation, request, operation request) that the worker unpacks; a full queue is reported '
+           'to the caller (queue.Full escapes - the request is never dropped silently after the caller was promised '
+           'processing); the wait for a free slot is bounded (non-blocking put or a positive finite time-out), so a '
+           'stuck worker cannot hang the request thread')
+    trusted = ('queue.Queue.put / put_nowait enqueue the item or raise queue.Full',)
+
+    def setup(self, b):
+        self.o = b.obj('self', cls=(SCO, '_OperationsWorker'))
+        self.op, self.req, self.opreq = b.obj('operation'), b.obj('request'), b.obj('operation_request')
+        self.tid = b.int('transaction_id')
+        b.distinct(self.o, self.op, self.req, self.opreq)
+        b.st.ghost['puts'] = ()
+        return self.o, [self.op, self.req, self.opreq, self.tid], {}
+
+    def callees(self, ex):
+        def mk(kind):
+            def put(ex_, st, args, kwargs):
+                item = args[0] if args else None
+                block = kwargs.get('block', args[1] if len(args) > 1 else None)
+                timeout = kwargs.get('timeout', args[2] if len(args) > 2 else None)
+                if kind == 'put_nowait':
+                    bounded = z3.BoolVal(True)
+                else:
+                    nonblocking = z3.Not(truthy(block, st)) if block is not None else z3.BoolVal(False)
+                    if timeout is None or timeout.kind == 'none':
+                        finite = z3.BoolVal(False)
+                    else:
+                        t = ex_.concrete_kind(st, timeout, ('int', 'real'))
+                        finite = (t.e > 0) if t.kind in ('int', 'real') else z3.BoolVal(False)
+                    bounded = z3.Or(nonblocking, finite)
+                full = st.fork()
+                full.ghost['puts'] = st.ghost['puts'] + ((kind, item, bounded, 'full'),)
+                st.ghost['puts'] = st.ghost['puts'] + ((kind, item, bounded, 'enqueued'),)
+                return [(full, Raise(ex_.mk_exc('queue.Full', 'Queue.' + kind))), (st, NONE)]
+            return put
+        return {'self._operations_queue.put': Pure(mk('put'), name='Queue.put (ghost log; may raise queue.Full)', trusted=True),
+                'self._operations_queue.put_nowait': Pure(mk('put_nowait'), name='Queue.put_nowait (ghost log; may raise queue.Full)', trusted=True)}
+
+    def post(self, ex, st0, st, outcome, b):
+        puts = st.ghost['puts']
+        ex.oblige(st, 'wait_for_a_free_slot_is_bounded', z3.And(*[p[2] for p in puts]) if puts else z3.BoolVal(True))
+        if outcome[0] == 'exc':
+            ex.oblige(st, 'only_queue_full_escapes', z3.BoolVal(outcome[1].cls == 'queue.Full'), info={'exc': repr(outcome[1])})
+            return
+        done = [p for p in puts if p[3] == 'enqueued']
+        ex.oblige(st, 'normal_return_means_enqueued_exactly_once', z3.BoolVal(len(done) == 1),
+                  info={'puts': str([(p[0], p[3]) for p in puts])})
+        if len(done) == 1:
+            item = done[0][1]
+            ok = item is not None and item.kind == 'tuple' and len(item.py) == 4
+            ex.oblige(st, 'queued_item_is_what_the_worker_unpacks', z3.And(
+                st.box(item.py[0]) == Val.int(self.tid.e), st.box(item.py[1]) == Val.ref(self.op.e),
+                st.box(item.py[2]) == Val.ref(self.req.e), st.box(item.py[3]) == Val.ref(self.opreq.e)) if ok else z3.BoolVal(False))
